@@ -110,6 +110,7 @@ void world_begin(World &W, const Json &plan) {
     isal_reset();
     if (&next_backend_desc) next_backend_desc = 0;   // every run starts from the same registry state
     W.baseline_live = own::live();
+    seq_locks_enable(true);
     W.trace.adds("prop", W.prop);
 }
 
@@ -135,6 +136,7 @@ void world_end(World &W) {
                " block(s) it allocated during this run");
         // keep later runs in this process independent of this one
     }
+    seq_locks_enable(false);
     g_world = nullptr;
 }
 
@@ -851,6 +853,10 @@ void exec_op(World &W, const Json &op, int index) {
     else if (k == "VSM") op_vsm(W, op);
     else if (k == "ENV") { if (op["val"].isnull()) set_env(W, false, ""); else set_env(W, true, op["val"].str()); W.fault("ENV"); }
     else exec_op_misc(W, op, k);
+    if (!W.threaded && seq_locks_held() != 0) {
+        W.viol("C13 C14 C15 C16 C17 C18", "lock/held-after-return", "a library lock is still held after the public call returned (the next create or destroy would block forever)");
+        seq_locks_reset();
+    }
 }
 
 Json run_plan(const Json &plan, bool verbose, std::vector<std::string> *log) {
